@@ -154,6 +154,8 @@ type concreteFeed struct {
 	vi      int
 	choices []int
 	ci      int
+	allC    []int // every structural choice of the recorded run, in order (any tag)
+	ai      int
 }
 
 func (m *machine) fresh(prefix string) string {
@@ -368,6 +370,20 @@ func (m *machine) choose(n int, tag string) int {
 	}
 	if m.spec {
 		panic(specBail{})
+	}
+	if m.concrete != nil {
+		// concrete re-execution: structural choices (harness choices, schedule, map orders) come from the feed
+		f := m.concrete
+		if f.ai >= len(f.allC) {
+			return 0
+		}
+		c := f.allC[f.ai]
+		f.ai++
+		if c >= n {
+			panic(engineError{fmt.Sprintf("concrete feed: choice %d out of range %d (tag %s)", c, n, tag)})
+		}
+		m.trace = append(m.trace, decision{Kind: 'c', N: n, C: c, Tag: tag})
+		return c
 	}
 	if m.pos < len(m.prefix) {
 		d := m.prefix[m.pos]
